@@ -520,6 +520,15 @@ def rule_empty(model):
                 continue
             vals_ += [x.value.body, x.value.orelse] if isinstance(
                 x.value, ast.IfExp) else [x.value]
+        # the probe in an inlined helper that hands the text back: its
+        # returns were lowered to assignments of the result (normalise.N2
+        # marks them)
+        if h is not None:
+            for x in ast.walk(h):
+                if isinstance(x, ast.Assign) and getattr(x, '_dt_ret',
+                                                         None):
+                    vals_ += [x.value.body, x.value.orelse] if isinstance(
+                        x.value, ast.IfExp) else [x.value]
         ok = h is not None and 'IndexError' in norm(h.type) and \
             len(vals_) >= 2
         elses = any('self.elses' in norm(v) or any(
